@@ -428,7 +428,7 @@ def run(tier, rep):
             detail = {"run": rid, "verdict": r["verdict"], "message": (r.get("msg") or r.get("stderr") or "")[:400],
                       "diagnostics": [x["msg"] for x in r.get("diags", [])][:4], "input": (q.get("text") or json.dumps({k: v for k, v in q.items() if k != "text"}))[-2500:]}
             rep.violation(ident, detail, replay={"request": q})
-    rep.coverage.update({"runs_validated_against_contract": len(records), "token_inputs": len(toks), "layouts": len(chosen), "layouts_in_model": len(layouts),
+    rep.coverage.update({"runs_validated_against_contract": len(records), "traces_validated_against_impl": len(records), "token_inputs": len(toks), "layouts": len(chosen), "layouts_in_model": len(layouts),
                          "cli_runs": len(cli_jobs) + art_n, "malformed_artifacts": art_n, "ill_typed_variants": len(mt), "family_programs": len(fam_reqs),
                          "outcomes_by_input_class": dict(classes), "time_limit_s": TIME_LIMIT_S, "slowest_over_20s": slow[:10],
                          "nesting_depths_cli": [300, 1000] if quick else [300, 1000, 3000]})
